@@ -262,6 +262,24 @@ def check_conversions(ctx, A, B, kind, blocks, strand, cds_blocks, cs, ce, what)
                 ctx.eq(what + ":conversion_same_on_chunk:sequence_interval_to_cds", _outcome(B.sequence_interval_to_cds, a, b, STRAND["+"]), _outcome(A.sequence_interval_to_cds, a, b, STRAND["+"]), extra=[a, b])
 
 
+def _from_chunk_relative(ctx, B, what, cls, blocks, strand, cs, ce, g):
+    """the documented constructor from a location on the chunk: the object it builds sits on the chromosome where that location
+    lifts to - same bases, same chromosome strand, same spliced sequence"""
+    crl = B.chunk_relative_location
+    if crl.is_empty:
+        return
+    try:
+        X = cls.from_chunk_relative_location(crl)
+    except (BioCantorException, ValueError) as e:
+        ctx.fail(what + ":from_chunk_relative_location_raises", repr(e)[:120])
+        return
+    inside = [p for p in rm.positions(blocks, strand) if cs <= p < ce]
+    ctx.eq(what + ":from_chunk_relative_location:chromosome_positions", rm.loc_positions(X.chromosome_location), inside)
+    ctx.eq(what + ":from_chunk_relative_location:chromosome_strand", X.strand.to_symbol(), strand)
+    ctx.eq(what + ":from_chunk_relative_location:spliced_sequence", str(X.get_spliced_sequence()), rm.seq_image(g, inside, strand))
+    ctx.label("from_chunk_relative_location")
+
+
 def check_view(spec, ctx):
     kind = spec["kind"]
     g = spec["genome"]
@@ -293,6 +311,7 @@ def check_view(spec, ctx):
         ctx.nt()
         check_interval_view(ctx, A, B, o["blocks"], o["strand"], cs, ce, g, "feature", cst)
         check_conversions(ctx, A, B, "feat", o["blocks"], o["strand"], None, cs, ce, "feature")
+        _from_chunk_relative(ctx, B, "feature", type(B), o["blocks"], o["strand"], cs, ce, g)
         Bp = A.liftover_to_parent_or_seq_chunk_parent(PB)
         ctx.eq("feature:relifted_equals_built", (norm_dict(Bp.to_dict()), rm.loc_blocks(Bp.chunk_relative_location) if not Bp.chunk_relative_location.is_empty else []),
                (norm_dict(B.to_dict()), rm.loc_blocks(B.chunk_relative_location) if not B.chunk_relative_location.is_empty else []))
@@ -325,6 +344,7 @@ def check_view(spec, ctx):
                 ctx.eq("transcript:cds_guid", str(B.cds.guid), str(A.cds.guid))
                 if not clip_tie:
                     check_cds_view(ctx, A.cds, B.cds, cspec, cs, ce, g, "transcript_cds", cst=cst)
+        _from_chunk_relative(ctx, B, "transcript", type(B), o["exons"], o["strand"], cs, ce, g)
         Bp = A.liftover_to_parent_or_seq_chunk_parent(PB)
         ctx.eq("transcript:relifted_to_dict", norm_dict(Bp.to_dict()), norm_dict(B.to_dict()))
     elif kind == "gene":
